@@ -192,17 +192,23 @@ unsafe fn drop_unreachable<T>(this: &mut Rc<T>) {
         // Move `T` out of the `RcBox`. Dropping an uninitialized `MaybeUninit`
         // has no effect.
         let inner = mem::replace(&mut (*rcbox).value, MaybeUninit::uninit());
+        #[cfg(cactusref_verif)]
+        crate::verif::emit(crate::verif::VALUE_MOVED, rcbox as usize);
         // destroy the contained `T`.
         drop(inner.assume_init());
         // Move the links `HashMap` out of the `RcBox`. Dropping an uninitialized
         // `MaybeUninit` has no effect.
         let links = mem::replace(&mut (*rcbox).links, MaybeUninit::uninit());
+        #[cfg(cactusref_verif)]
+        crate::verif::emit(crate::verif::LINKS_MOVED, rcbox as usize);
         // Destroy the heap-allocated links.
         drop(links.assume_init());
     }
 
     // remove the implicit "strong weak" pointer now that we've destroyed the
     // contents.
+    #[cfg(cactusref_verif)]
+    crate::verif::emit(crate::verif::ACCESS, rcbox as usize);
     (*rcbox).dec_weak();
 
     if (*rcbox).weak() == 0 {
@@ -289,9 +295,13 @@ unsafe fn drop_cycle<T>(cycle: HashMap<Link<T>, usize>) {
             // Move `T` out of the `RcBox`. Dropping an uninitialized
             // `MaybeUninit` has no effect.
             let inner = mem::replace(&mut (*rcbox).value, MaybeUninit::uninit());
+            #[cfg(cactusref_verif)]
+            crate::verif::emit(crate::verif::VALUE_MOVED, rcbox as usize);
             // Move the links `HashMap` out of the `RcBox`. Dropping an
             // uninitialized `MaybeUninit` has no effect.
             let links = mem::replace(&mut (*rcbox).links, MaybeUninit::uninit());
+            #[cfg(cactusref_verif)]
+            crate::verif::emit(crate::verif::LINKS_MOVED, rcbox as usize);
             trace!("cactusref deconstructed member {:p} of orphan cycle", rcbox);
             // Move `T` and the `HashMap` out of the `RcBox` to be dropped after
             // busting the cycle.
@@ -327,6 +337,8 @@ unsafe fn drop_cycle<T>(cycle: HashMap<Link<T>, usize>) {
         let rcbox = ptr.as_ptr();
         // remove the implicit "strong weak" pointer now that we've destroyed
         // the contents.
+        #[cfg(cactusref_verif)]
+        crate::verif::emit(crate::verif::ACCESS, rcbox as usize);
         (*rcbox).dec_weak();
 
         if (*rcbox).weak() == 0 {
@@ -363,6 +375,8 @@ pub(crate) unsafe fn release_links<T>(this: &Rc<T>) {
     }
     let rcbox = this.ptr.as_ptr();
     let links = mem::replace(&mut (*rcbox).links, MaybeUninit::uninit());
+    #[cfg(cactusref_verif)]
+    crate::verif::emit(crate::verif::LINKS_MOVED, rcbox as usize);
     drop(links.assume_init());
 }
 
@@ -438,17 +452,23 @@ unsafe fn drop_unreachable_with_adoptions<T>(this: &mut Rc<T>) {
         // Move `T` out of the `RcBox`. Dropping an uninitialized `MaybeUninit`
         // has no effect.
         let inner = mem::replace(&mut (*rcbox).value, MaybeUninit::uninit());
+        #[cfg(cactusref_verif)]
+        crate::verif::emit(crate::verif::VALUE_MOVED, rcbox as usize);
         // destroy the contained `T`.
         drop(inner.assume_init());
         // Move the links `HashMap` out of the `RcBox`. Dropping an uninitialized
         // `MaybeUninit` has no effect.
         let links = mem::replace(&mut (*rcbox).links, MaybeUninit::uninit());
+        #[cfg(cactusref_verif)]
+        crate::verif::emit(crate::verif::LINKS_MOVED, rcbox as usize);
         // Destroy the heap-allocated links.
         drop(links.assume_init());
     }
 
     // remove the implicit "strong weak" pointer now that we've destroyed the
     // contents.
+    #[cfg(cactusref_verif)]
+    crate::verif::emit(crate::verif::ACCESS, rcbox as usize);
     (*rcbox).dec_weak();
 
     if (*rcbox).weak() == 0 {
